@@ -40,13 +40,15 @@ const (
 	c19MinLen   = 16
 	c19KnownFp  = "rotate-drops-fp"
 	c19KnownBuf = "write-retains-slice"
-	c19GStride  = 100000 // record id = goroutine*stride + sequence number
+	c19GStride  = 10000 // record id = (entry point*4 + goroutine)*stride + sequence number
+	c19Keys     = 32    // 8 entry points x 4 goroutines
 	c19DateOnly = "2006-01-02"
 )
 
 type c19Pre struct {
 	Age int `json:"age"`           // days before the logger's start
 	Sec int `json:"sec,omitempty"` // size rule: offset in seconds added to start-Age*24h (may be negative)
+	F   int `json:"f,omitempty"`   // logx modes: which of the five log files the backup belongs to
 }
 
 type c19Step struct {
@@ -54,6 +56,7 @@ type c19Step struct {
 	Ms   int64  `json:"ms,omitempty"` // gap: sleep Ms; mid: sleep to next local midnight + Ms (may be negative)
 	N    int    `json:"n,omitempty"`  // days: sleep N*24h
 	Lens []int  `json:"w,omitempty"`  // burst: record lengths, written back to back
+	Ep   []int  `json:"ep,omitempty"` // logx modes: entry point of each record (index into c19Eps), default Info
 	Pz   int64  `json:"pz,omitempty"` // logx modes: goroutine g pauses Pz*(g+1) microseconds between its records
 }
 
@@ -112,6 +115,40 @@ func c19Payload(id, n int) string {
 	return string(b)
 }
 
+// The file writer's entry points and the file each one feeds, as the package lays them out
+// (lib/logx/vars.go + writer.go at 000bb3f, the go-zero layout): Info/Debug -> access.log,
+// Error/Alert/Stack -> error.log (Stack through a lessWriter, cooldown 0 here), Severe ->
+// severe.log, Slow -> slow.log, Stat -> stat.log. File names are literals on purpose: the
+// harness must not follow a change of the package's constants.
+var c19Files = []string{"access.log", "error.log", "severe.log", "slow.log", "stat.log"}
+
+var c19Eps = []struct {
+	name, level string
+	file        int
+}{
+	{"Info", levelInfo, 0}, {"Debug", levelDebug, 0},
+	{"Error", levelError, 1}, {"Alert", levelAlert, 1}, {"Stack", levelError, 1},
+	{"Severe", levelFatal, 2}, {"Slow", levelSlow, 3}, {"Stat", levelStat, 4},
+}
+
+// c19EpOf: entry point of a record id; old records (written by an earlier run) carry the file.
+func c19EpOf(id int) int {
+	if id >= c19OldBase {
+		f := (id - c19OldBase) / c19GStride
+		for i, e := range c19Eps {
+			if e.file == f {
+				return i
+			}
+		}
+		return 0
+	}
+	ep := id / c19GStride / 4
+	if ep >= len(c19Eps) {
+		return 0
+	}
+	return ep
+}
+
 type c19Val struct {
 	P string `json:"p"`
 }
@@ -125,13 +162,13 @@ func c19Line(mode, ts string, id, n int, val bool) []byte {
 		content = c19Val{P: c19Payload(id, n)}
 	}
 	if mode == "json" {
-		b, _ := json.Marshal(map[string]any{timestampKey: ts, levelKey: levelInfo, contentKey: content})
+		b, _ := json.Marshal(map[string]any{timestampKey: ts, levelKey: c19Eps[c19EpOf(id)].level, contentKey: content})
 		return append(b, '\n')
 	}
 	var sb strings.Builder
 	sb.WriteString(ts)
 	sb.WriteByte(plainEncodingSep)
-	sb.WriteString(wrapLevelWithColor(levelInfo))
+	sb.WriteString(wrapLevelWithColor(c19Eps[c19EpOf(id)].level))
 	sb.WriteByte(plainEncodingSep)
 	if val {
 		b, _ := json.Marshal(content)
@@ -157,7 +194,6 @@ func c19Header(p string) (id, n int, ok bool) {
 // byte-identical to the line the package writes for a (timestamp, record) pair.
 func c19ParseLines(b []byte, mode string) ([]c19Parsed, string) {
 	var out []c19Parsed
-	lvl := wrapLevelWithColor(levelInfo)
 	o := 0
 	for o < len(b) {
 		nl := bytes.IndexByte(b[o:], '\n')
@@ -185,7 +221,7 @@ func c19ParseLines(b []byte, mode string) ([]c19Parsed, string) {
 			}
 		} else {
 			parts := strings.SplitN(line, string(rune(plainEncodingSep)), 3)
-			if len(parts) != 3 || parts[1] != lvl {
+			if len(parts) != 3 {
 				return out, fmt.Sprintf("line at offset %d is not <time> <level> <content>: %.80q", o, line)
 			}
 			ts, payload = parts[0], parts[2]
@@ -265,6 +301,7 @@ const (
 type c19File struct {
 	name string
 	kind int
+	lg   int       // index of the log (current file + its backups) the file belongs to
 	t    time.Time // backup: the instant encoded in the name
 	gz   bool
 	fi   os.FileInfo
@@ -276,47 +313,81 @@ type c19File struct {
 
 type c19Snap map[string]*c19File
 
-type c19Env struct {
-	c           c19Case
-	dir         string
-	prefix, ext string
-	cache       map[string]*c19File // backups and other files are immutable once the writer is quiescent
+// c19Log is one log of the writer under test: a current file, its backups and the oracle's
+// bookkeeping for the records that belong there.
+type c19Log struct {
+	idx               int
+	base, prefix, ext string
+	path              string
+	l                 *RotateLogger
+	maxSize           int64
+	// held: a descriptor on the current file, kept open between two snapshots. A rotation is
+	// recognised by the path naming another file than the descriptor (the inode cannot be
+	// reused while it is open), and the content of a backup that was removed right after its
+	// creation can still be read through it.
+	held *os.File
+	// when the current file's period began (names the next backup): known exactly when no
+	// virtual time passes within a step, otherwise bracketed by the step's start and end
+	periodLo, periodHi time.Time
+	loc                map[int]string // record id -> file it was seen in at the previous snapshot
+	gone               map[int]bool   // record id -> its backup was removed by a justified clean-up
+	tolerated          map[int]bool
+	rotations          int
 }
 
-func (e *c19Env) classify(name string) (kind int, tm time.Time, gz bool) {
-	if name == e.c.Base {
-		return c19Current, tm, false
+type c19Env struct {
+	c     c19Case
+	dir   string
+	logs  []*c19Log
+	cache map[string]*c19File // backups and other files are immutable once the writer is quiescent
+}
+
+func (e *c19Env) addLog(base string, start time.Time) *c19Log {
+	ext := filepath.Ext(base)
+	lg := &c19Log{idx: len(e.logs), base: base, ext: ext, prefix: base[:len(base)-len(ext)], path: filepath.Join(e.dir, base),
+		periodLo: start, periodHi: start, loc: map[int]string{}, gone: map[int]bool{}, tolerated: map[int]bool{}}
+	e.logs = append(e.logs, lg)
+	return lg
+}
+
+func (e *c19Env) classify(name string) (kind int, tm time.Time, gz bool, idx int) {
+	for _, lg := range e.logs {
+		if name == lg.base {
+			return c19Current, tm, false, lg.idx
+		}
 	}
 	s := name
 	if strings.HasSuffix(s, ".gz") {
 		gz = true
 		s = strings.TrimSuffix(s, ".gz")
 	}
-	if e.c.Rule == "daily" {
-		p := e.c.Base + e.c.Delim
-		if strings.HasPrefix(s, p) {
-			if t, err := time.ParseInLocation(c19DateOnly, s[len(p):], time.Local); err == nil {
-				return c19Backup, t, gz
+	for _, lg := range e.logs {
+		if e.c.Rule == "daily" {
+			p := lg.base + e.c.Delim
+			if strings.HasPrefix(s, p) {
+				if t, err := time.ParseInLocation(c19DateOnly, s[len(p):], time.Local); err == nil {
+					return c19Backup, t, gz, lg.idx
+				}
+			}
+			continue
+		}
+		p := lg.prefix + e.c.Delim
+		if strings.HasPrefix(s, p) && strings.HasSuffix(s, lg.ext) && len(s) > len(p)+len(lg.ext) {
+			if t, err := time.Parse(time.RFC3339, s[len(p):len(s)-len(lg.ext)]); err == nil {
+				return c19Backup, t, gz, lg.idx
 			}
 		}
-		return c19Other, tm, false
 	}
-	p := e.prefix + e.c.Delim
-	if strings.HasPrefix(s, p) && strings.HasSuffix(s, e.ext) && len(s) > len(p)+len(e.ext) {
-		if t, err := time.Parse(time.RFC3339, s[len(p):len(s)-len(e.ext)]); err == nil {
-			return c19Backup, t, gz
-		}
-	}
-	return c19Other, tm, false
+	return c19Other, tm, false, 0
 }
 
 // backupName: <name><delim><date> / <prefix><delim><timestamp><ext>, ".gz" when compressed.
-func (e *c19Env) backupName(t time.Time, gz bool) string {
+func (e *c19Env) backupName(lg *c19Log, t time.Time, gz bool) string {
 	var s string
 	if e.c.Rule == "daily" {
-		s = e.c.Base + e.c.Delim + t.Format(c19DateOnly)
+		s = lg.base + e.c.Delim + t.Format(c19DateOnly)
 	} else {
-		s = e.prefix + e.c.Delim + t.Format(time.RFC3339) + e.ext
+		s = lg.prefix + e.c.Delim + t.Format(time.RFC3339) + lg.ext
 	}
 	if gz {
 		s += ".gz"
@@ -348,7 +419,7 @@ func (e *c19Env) snapshot() (c19Snap, string) {
 			return nil, "snapshot: " + err.Error()
 		}
 		f := &c19File{name: en.Name(), raw: raw, fi: fi}
-		f.kind, f.t, f.gz = e.classify(en.Name())
+		f.kind, f.t, f.gz, f.lg = e.classify(en.Name())
 		if f.kind != c19Other {
 			f.data = raw
 			if f.gz {
@@ -426,8 +497,6 @@ func c19Run(c c19Case, root string, r *c19Result) {
 	if c.Subdir {
 		e.dir = filepath.Join(root, "logs", "svc")
 	}
-	e.ext = filepath.Ext(c.Base)
-	e.prefix = c.Base[:len(c.Base)-len(e.ext)]
 	failf := func(format string, a ...any) {
 		if r.fail == "" {
 			r.fail = fmt.Sprintf(format, a...)
@@ -445,6 +514,13 @@ func c19Run(c c19Case, root string, r *c19Result) {
 	}
 	time.Sleep(time.Duration(c.T0) * time.Second)
 	start := time.Now()
+	if c.Mode == "" {
+		e.addLog(c.Base, start)
+	} else {
+		for _, f := range c19Files {
+			e.addLog(f, start)
+		}
+	}
 
 	// ---- pre-existing files
 	pre := map[string][]byte{} // name -> raw content (must stay byte-identical while present)
@@ -454,7 +530,8 @@ func c19Run(c c19Case, root string, r *c19Result) {
 			failf("setup: %v", err)
 		}
 	}
-	oldID := c19OldBase
+	oldSeq := 0
+	oldID := func(file int) int { oldSeq++; return c19OldBase + file*c19GStride + oldSeq }
 	oldRec := func(id, n int) []byte {
 		if c.Mode == "" {
 			return c19Rec(id, n)
@@ -467,12 +544,12 @@ func c19Run(c c19Case, root string, r *c19Result) {
 			if c.Rule == "daily" {
 				bt = c19Day(start).AddDate(0, 0, -p.Age)
 			}
-			name := e.backupName(bt, c.Gzip)
+			lg := e.logs[p.F%len(e.logs)]
+			name := e.backupName(lg, bt, c.Gzip)
 			if _, dup := pre[name]; dup {
 				continue
 			}
-			oldID++
-			b := oldRec(oldID, 40)
+			b := oldRec(oldID(lg.idx), 40)
 			if c.Gzip {
 				b = c19Gz(b)
 			}
@@ -484,11 +561,10 @@ func c19Run(c c19Case, root string, r *c19Result) {
 		if len(c.PreCur) > 0 {
 			var b []byte
 			for _, n := range c.PreCur {
-				oldID++
-				b = append(b, oldRec(oldID, n)...)
+				b = append(b, oldRec(oldID(0), n)...)
 			}
-			write(c.Base, b)
-			delete(pre, c.Base) // the current file grows; judged through the record rules
+			write(e.logs[0].base, b)
+			delete(pre, e.logs[0].base) // the current file grows; judged through the record rules
 			r.classes["restart-append"] = true
 		}
 	}
@@ -497,7 +573,7 @@ func c19Run(c c19Case, root string, r *c19Result) {
 	}
 
 	// ---- the logger under test
-	filename := filepath.Join(e.dir, c.Base)
+	filename := e.logs[0].path
 	var rule RotateRule
 	maxSize := int64(c.MaxSize)
 	if c.Rule == "daily" {
@@ -539,10 +615,18 @@ func c19Run(c c19Case, root string, r *c19Result) {
 			return
 		}
 		cw = w.(*concreteWriter)
-		l = cw.infoLog.(*RotateLogger)
-		if sr, ok := l.rule.(*SizeLimitRotateRule); ok {
-			sr.maxSize = maxSize
+		for i, out := range []io.WriteCloser{cw.infoLog, cw.errorLog, cw.severeLog, cw.slowLog, cw.statLog} {
+			rl, ok := out.(*RotateLogger)
+			if !ok {
+				failf("newFileWriter built a %T for %s", out, c19Files[i])
+				return
+			}
+			if sr, ok := rl.rule.(*SizeLimitRotateRule); ok {
+				sr.maxSize = maxSize
+			}
+			e.logs[i].l = rl
 		}
+		l = e.logs[0].l
 		closeAll = cw.Close
 		r.classes["mode-"+c.Mode] = true
 	} else if c.Via {
@@ -579,6 +663,19 @@ func c19Run(c c19Case, root string, r *c19Result) {
 			closeAll()
 		}
 	}()
+	for _, lg := range e.logs {
+		lg.maxSize = maxSize
+		if lg.l == nil {
+			lg.l = l
+		}
+	}
+	defer func() {
+		for _, lg := range e.logs {
+			if lg.held != nil {
+				lg.held.Close()
+			}
+		}
+	}()
 	kit.Wait()
 
 	prev, msg := e.snapshot()
@@ -586,49 +683,34 @@ func c19Run(c c19Case, root string, r *c19Result) {
 		failf("%s", msg)
 		return
 	}
-	// when the current file's period began (names the next backup): known exactly when no
-	// virtual time passes within a step, otherwise bracketed by the step's start and end
-	periodLo, periodHi := start, start
 	stepStart := start
-	// held: a descriptor on the current file, kept open between two snapshots. A
-	// rotation is recognised by the path naming another file than the descriptor
-	// (the inode cannot be reused while it is open), and the content of a backup
-	// that was removed right after its creation can still be read through it.
-	var held *os.File
-	defer func() {
-		if held != nil {
-			held.Close()
-		}
-	}()
-	loc := map[int]string{} // record id -> file it was seen in at the previous snapshot
-	gone := map[int]bool{}  // record id -> its backup was removed by a justified clean-up
-	tolerated := map[int]bool{}
-	var count [4]int      // records accepted so far, per goroutine
-	recordsJudged := true // false once the known defect "write-retains-slice" has damaged the files
+	var count [c19Keys]int // records accepted so far, per (entry point, goroutine)
+	recordsJudged := true  // false once the known defect "write-retains-slice" has damaged the files
 	retains := c.Buf != "" || c.Mode == "plain"
 	coherent := c.Gzip == c.Compress
 	if !coherent {
 		r.classes["gzip-flags-differ"] = true
 	}
+	// logOf: the log a record belongs to, by the entry point it was logged through
+	logOf := func(id int) *c19Log {
+		if c.Mode == "" {
+			return e.logs[0]
+		}
+		return e.logs[c19Eps[c19EpOf(id)].file]
+	}
 
 	// check compares the snapshot after a step with the one before it.
-	check := func(what string, firstNew int) bool {
+	check := func(what string) bool {
 		now := time.Now()
 		cur, msg := e.snapshot()
 		if msg != "" {
 			failf("%s", msg)
 			return false
 		}
-		// (a) the current file is never removed
-		cf := cur[c.Base]
-		if cf == nil {
-			failf("%s: the current log file %s does not exist", what, c.Base)
-			return false
-		}
-		// recFail reports a failure of the record rules (e)(f). Where the case lets the caller's
+		// recFail reports a failure of the record rules (e). Where the case lets the caller's
 		// buffer change after Write returned (Buf != "", or logx's plain encoding, which writes
-		// through fmt.Fprint's pooled buffer) it is the known defect: RotateLogger.Write queues
-		// the caller's slice instead of a copy. The records are then not judged any further.
+		// through fmt.Fprint's pooled buffer) it matches finding write-retains-slice (fixed in
+		// 000bb3f): the records of the case are then not judged any further.
 		recFail := func(format string, a ...any) bool {
 			if retains {
 				if r.knownBuf == "" {
@@ -639,6 +721,13 @@ func c19Run(c c19Case, root string, r *c19Result) {
 			}
 			failf(format, a...)
 			return false
+		}
+		// (a) no current file is ever removed
+		for _, lg := range e.logs {
+			if cur[lg.base] == nil {
+				failf("%s: the current log file %s does not exist", what, lg.base)
+				return false
+			}
 		}
 		// all files that parse as log files: no damaged content
 		if recordsJudged {
@@ -651,112 +740,11 @@ func c19Run(c c19Case, root string, r *c19Result) {
 				}
 			}
 		}
-		// rotation observed in this step?
-		rotated := false
-		oldRecs := map[int]bool{} // records in the file that was the current one before this step's rotation
-		if held != nil {
-			hfi, err1 := held.Stat()
-			cfi, err2 := os.Stat(filename)
-			if err1 == nil && err2 == nil && !os.SameFile(hfi, cfi) {
-				rotated = true
-				if fi, err := held.Stat(); err == nil {
-					b := make([]byte, fi.Size())
-					if n, _ := held.ReadAt(b, 0); n == len(b) {
-						recs, _ := c19Parse(b, c.Mode)
-						for _, p := range recs {
-							oldRecs[p.id] = true
-						}
-					}
-				}
-			}
-		}
-		for _, f := range cur {
-			if f.kind == c19Backup && prev[f.name] == nil {
-				rotated = true
-			}
-		}
-		if pf := prev[c.Base]; pf != nil && !bytes.HasPrefix(cf.data, pf.data) {
-			rotated = true
-		}
-		// instants that may name the backup made by this step's rotation
-		var expTs []time.Time
-		for _, p := range []time.Time{periodLo, periodHi} {
-			x := p.Truncate(time.Second)
-			if c.Rule == "daily" {
-				x = c19Day(p)
-			}
-			if len(expTs) == 0 || !expTs[0].Equal(x) {
-				expTs = append(expTs, x)
-			}
-		}
-		// backups that existed at some point of this step (for the "newest N" ranking)
-		var times []time.Time
-		seen := map[string]bool{}
-		for _, s := range []c19Snap{prev, cur} {
-			for _, f := range s {
-				if f.kind == c19Backup && !seen[f.name] {
-					seen[f.name] = true
-					times = append(times, f.t)
-				}
-			}
-		}
-		if rotated {
-			for _, expT := range expTs {
-				if n := e.backupName(expT, c.Compress); !seen[n] {
-					times = append(times, expT)
-				}
-			}
-		}
-		// bornOutdated: the backup made by this step's rotation is absent and its name was
-		// already older than the retention days, so the clean-up removed it at once
-		bornOutdated := false
-		for _, expT := range expTs {
-			if rotated && cur[e.backupName(expT, c.Compress)] == nil && c.Days > 0 && e.older(expT, now, c.Days) {
-				bornOutdated = true
-			}
-		}
-		justified := func(bt time.Time) bool {
-			if c.Days > 0 && e.older(bt, now, c.Days) {
-				return true
-			}
-			if c.Rule == "size" && c.MaxBackups > 0 {
-				newer := 0
-				for _, x := range times {
-					if x.After(bt) {
-						newer++
-					}
-				}
-				if newer >= c.MaxBackups {
-					return true
-				}
-			}
-			return false
-		}
-		// (b)(c) every file that disappeared was an outdated backup
+		// (b) files that are neither a current file nor a backup are never removed
 		for name, pf := range prev {
-			if cur[name] != nil {
-				continue
-			}
-			if pf.kind != c19Backup {
+			if cur[name] == nil && pf.kind == c19Other {
 				failf("%s: file %s, which is not a backup of this log, was removed", what, name)
 				return false
-			}
-			if !justified(pf.t) {
-				failf("%s: backup %s was removed although it is neither older than %d day(s) at %s nor beyond the %d newest backups",
-					what, name, c.Days, now.Format(time.RFC3339), c.MaxBackups)
-				return false
-			}
-			if c.Days > 0 && e.older(pf.t, now, c.Days) {
-				r.classes["removed-by-age"] = true
-			} else {
-				r.classes["removed-by-count"] = true
-			}
-			if _, ok := pre[name]; ok {
-				r.preGone++
-				r.classes["pre-existing-backup-removed"] = true
-				delete(pre, name)
-			} else {
-				r.classes["own-backup-removed"] = true
 			}
 		}
 		// (d) pre-existing files still present are untouched
@@ -766,160 +754,272 @@ func c19Run(c c19Case, root string, r *c19Result) {
 				return false
 			}
 		}
-		// (e) records: each one once, complete, in order (per goroutine), or gone with a justified clean-up
-		var order []*c19File
-		judgeRecords := func() bool {
-			type hit struct {
-				file string
-				n    int
-			}
-			where := map[int]*hit{}
-			for _, f := range cur {
-				if f.kind == c19Backup {
-					order = append(order, f)
-				}
-			}
-			sort.Slice(order, func(i, j int) bool {
-				if !order[i].t.Equal(order[j].t) {
-					return order[i].t.Before(order[j].t)
-				}
-				return order[i].name < order[j].name
-			})
-			order = append(order, cf)
-			var last [4]int
-			for _, f := range order {
-				for _, p := range f.recs {
-					if p.id >= c19OldBase {
-						continue
-					}
-					if h := where[p.id]; h != nil {
-						h.n++
-						return recFail("%s: record %d is present more than once (%s and %s)", what, p.id, h.file, f.name)
-					}
-					where[p.id] = &hit{file: f.name, n: 1}
-					g, n := p.id/c19GStride, p.id%c19GStride
-					if g >= len(count) || n == 0 || n > count[g] {
-						return recFail("%s: file %s holds record %d which was never written", what, f.name, p.id)
-					}
-					if p.id <= last[g] {
-						return recFail("%s: record %d follows record %d (file %s): order broken", what, p.id, last[g], f.name)
-					}
-					last[g] = p.id
-				}
-			}
-			var accepted []int
-			for g := range count {
-				for n := 1; n <= count[g]; n++ {
-					accepted = append(accepted, g*c19GStride+n)
-				}
-			}
-			for _, id := range accepted {
-				if where[id] != nil {
-					if gone[id] || tolerated[id] {
-						return recFail("%s: record %d reappeared in %s after its file had been removed", what, id, where[id].file)
-					}
-					continue
-				}
-				if gone[id] || tolerated[id] {
-					continue
-				}
-				// missing: find a justification
-				was, seenBefore := loc[id]
-				switch {
-				case seenBefore && was != c.Base && cur[was] == nil:
-					// its backup was removed in this step; (c) has judged the removal
-					gone[id] = true
-					continue
-				case rotated && oldRecs[id] && bornOutdated:
-					// it was in the file rotated in this step
-					gone[id] = true
-					r.classes["backup-outdated-at-birth"] = true
-					continue
-				}
-				if l.fp == nil && (rotated || r.rotations > 0) {
-					// characterises the known defect: rotate() discards the handle of the re-created file
-					tolerated[id] = true
-					if r.known == "" {
-						r.known = fmt.Sprintf("%s: record %d was accepted and processed but is in no file; the writer's fp is nil after a rotation", what, id)
-					}
-					continue
-				}
-				if seenBefore {
-					return recFail("%s: record %d, last seen in %s, is in no file any more", what, id, was)
-				}
-				return recFail("%s: record %d was accepted and processed but is in no file", what, id)
-			}
-			for id, h := range where {
-				loc[id] = h.file
-			}
-			// (f) size rule: at most one record of a file ends beyond the maximum
-			if c.Rule == "size" {
-				for _, f := range order {
-					beyond := 0
-					for _, p := range f.recs {
-						if p.id < c19OldBase && int64(p.end) > maxSize {
-							beyond++
+		anyRotated := false
+		for _, lg := range e.logs {
+			cf := cur[lg.base]
+			// rotation of this log observed in this step?
+			rotated := false
+			oldRecs := map[int]bool{} // records in the file that was the current one before this step's rotation
+			if lg.held != nil {
+				hfi, err1 := lg.held.Stat()
+				cfi, err2 := os.Stat(lg.path)
+				if err1 == nil && err2 == nil && !os.SameFile(hfi, cfi) {
+					rotated = true
+					b := make([]byte, hfi.Size())
+					if n, _ := lg.held.ReadAt(b, 0); n == len(b) {
+						recs, _ := c19Parse(b, c.Mode)
+						for _, p := range recs {
+							oldRecs[p.id] = true
 						}
 					}
-					if beyond > 1 {
-						// whole records were counted: not an effect of a changed buffer
-						failf("%s: file %s (%d bytes) grew beyond the maximum of %d bytes by %d records", what, f.name, len(f.data), maxSize, beyond)
-						return false
-					}
-					if beyond == 1 {
-						r.classes["file-beyond-max-by-one-record"] = true
+				}
+			}
+			for _, f := range cur {
+				if f.kind == c19Backup && f.lg == lg.idx && prev[f.name] == nil {
+					rotated = true
+				}
+			}
+			if pf := prev[lg.base]; pf != nil && !bytes.HasPrefix(cf.data, pf.data) {
+				rotated = true
+			}
+			// instants that may name the backup made by this step's rotation
+			var expTs []time.Time
+			for _, p := range []time.Time{lg.periodLo, lg.periodHi} {
+				x := p.Truncate(time.Second)
+				if c.Rule == "daily" {
+					x = c19Day(p)
+				}
+				if len(expTs) == 0 || !expTs[0].Equal(x) {
+					expTs = append(expTs, x)
+				}
+			}
+			// backups of this log that existed at some point of this step (for the "newest N" ranking)
+			var times []time.Time
+			seen := map[string]bool{}
+			for _, s := range []c19Snap{prev, cur} {
+				for _, f := range s {
+					if f.kind == c19Backup && f.lg == lg.idx && !seen[f.name] {
+						seen[f.name] = true
+						times = append(times, f.t)
 					}
 				}
 			}
-			return true
-		}
-		if recordsJudged && !judgeRecords() {
-			return false
-		}
-		// (g) after a rotation's clean-up nothing clearly outdated is left (1 day of margin)
-		if rotated && coherent {
-			n := 0
-			for _, f := range cur {
-				if f.kind != c19Backup || f.gz != c.Compress {
+			// bornOutdated: the backup made by this step's rotation is absent and its name was
+			// already older than the retention days, so the clean-up removed it at once
+			bornOutdated := false
+			if rotated {
+				for _, expT := range expTs {
+					n := e.backupName(lg, expT, c.Compress)
+					if !seen[n] {
+						times = append(times, expT)
+					}
+					if cur[n] == nil && c.Days > 0 && e.older(expT, now, c.Days) {
+						bornOutdated = true
+					}
+				}
+			}
+			justified := func(bt time.Time) bool {
+				if c.Days > 0 && e.older(bt, now, c.Days) {
+					return true
+				}
+				if c.Rule == "size" && c.MaxBackups > 0 {
+					newer := 0
+					for _, x := range times {
+						if x.After(bt) {
+							newer++
+						}
+					}
+					if newer >= c.MaxBackups {
+						return true
+					}
+				}
+				return false
+			}
+			// (c) every backup that disappeared was outdated
+			for name, pf := range prev {
+				if cur[name] != nil || pf.kind != c19Backup || pf.lg != lg.idx {
 					continue
 				}
-				n++
-				if c.Days > 0 && !e.older(f.t, now, c.Days) {
-					edge := f.t.Add(time.Duration(c.Days) * 24 * time.Hour)
-					if c.Rule == "daily" {
-						edge = c19Day(f.t).AddDate(0, 0, c.Days)
-					}
-					if (c.Rule == "daily" && edge.Equal(c19Day(now))) || (c.Rule == "size" && edge.Equal(now.Truncate(time.Second))) {
-						r.classes["kept-exactly-at-retention-boundary"] = true
+				if !justified(pf.t) {
+					failf("%s: backup %s was removed although it is neither older than %d day(s) at %s nor beyond the %d newest backups",
+						what, name, c.Days, now.Format(time.RFC3339), c.MaxBackups)
+					return false
+				}
+				if c.Days > 0 && e.older(pf.t, now, c.Days) {
+					r.classes["removed-by-age"] = true
+				} else {
+					r.classes["removed-by-count"] = true
+				}
+				if _, ok := pre[name]; ok {
+					r.preGone++
+					r.classes["pre-existing-backup-removed"] = true
+					delete(pre, name)
+				} else {
+					r.classes["own-backup-removed"] = true
+				}
+			}
+			// (e) records: each one once, complete, in order (per entry point and goroutine), in
+			// the files of the log its entry point feeds, or gone with a justified clean-up
+			var order []*c19File
+			judgeRecords := func() bool {
+				where := map[int]string{}
+				for _, f := range cur {
+					if f.kind == c19Backup && f.lg == lg.idx {
+						order = append(order, f)
 					}
 				}
-				if c.Days > 0 && e.older(f.t, now, c.Days+1) {
-					failf("%s: backup %s is more than a day older than the %d retention day(s) at %s and survived the clean-up",
-						what, f.name, c.Days, now.Format(time.RFC3339))
+				sort.Slice(order, func(i, j int) bool {
+					if !order[i].t.Equal(order[j].t) {
+						return order[i].t.Before(order[j].t)
+					}
+					return order[i].name < order[j].name
+				})
+				order = append(order, cf)
+				var last [c19Keys]int
+				for _, f := range order {
+					for _, p := range f.recs {
+						if p.id >= c19OldBase {
+							continue
+						}
+						if w, dup := where[p.id]; dup {
+							return recFail("%s: record %d is present more than once (%s and %s)", what, p.id, w, f.name)
+						}
+						where[p.id] = f.name
+						k, n := p.id/c19GStride, p.id%c19GStride
+						if k >= c19Keys || n == 0 || n > count[k] {
+							return recFail("%s: file %s holds record %d which was never written", what, f.name, p.id)
+						}
+						if logOf(p.id) != lg {
+							ep := c19Eps[c19EpOf(p.id)]
+							failf("%s: file %s holds record %d, which was logged through %s and belongs in %s", what, f.name, p.id, ep.name, c19Files[ep.file])
+							return false
+						}
+						if p.id <= last[k] {
+							return recFail("%s: record %d follows record %d (file %s): order broken", what, p.id, last[k], f.name)
+						}
+						last[k] = p.id
+					}
+				}
+				for k := range count {
+					for n := 1; n <= count[k]; n++ {
+						id := k*c19GStride + n
+						if logOf(id) != lg {
+							continue
+						}
+						if w, ok := where[id]; ok {
+							if lg.gone[id] || lg.tolerated[id] {
+								return recFail("%s: record %d reappeared in %s after its file had been removed", what, id, w)
+							}
+							continue
+						}
+						if lg.gone[id] || lg.tolerated[id] {
+							continue
+						}
+						// missing: find a justification
+						was, seenBefore := lg.loc[id]
+						switch {
+						case seenBefore && was != lg.base && cur[was] == nil:
+							// its backup was removed in this step; (c) has judged the removal
+							lg.gone[id] = true
+							continue
+						case rotated && oldRecs[id] && bornOutdated:
+							// it was in the file rotated in this step
+							lg.gone[id] = true
+							r.classes["backup-outdated-at-birth"] = true
+							continue
+						}
+						if lg.l.fp == nil && (rotated || lg.rotations > 0) {
+							// characterises finding rotate-drops-fp (fixed in 5dfdeaa)
+							lg.tolerated[id] = true
+							if r.known == "" {
+								r.known = fmt.Sprintf("%s: record %d was accepted and processed but is in no file; the writer's fp is nil after a rotation", what, id)
+							}
+							continue
+						}
+						if seenBefore {
+							return recFail("%s: record %d, last seen in %s, is in no file of %s any more", what, id, was, lg.base)
+						}
+						return recFail("%s: record %d was accepted and processed but is in no file of %s", what, id, lg.base)
+					}
+				}
+				for id, w := range where {
+					lg.loc[id] = w
+				}
+				// (f) size rule: at most one record of a file ends beyond the maximum
+				if c.Rule == "size" {
+					for _, f := range order {
+						beyond := 0
+						for _, p := range f.recs {
+							if p.id < c19OldBase && int64(p.end) > lg.maxSize {
+								beyond++
+							}
+						}
+						if beyond > 1 {
+							// whole records were counted: not an effect of a changed buffer
+							failf("%s: file %s (%d bytes) grew beyond the maximum of %d bytes by %d records", what, f.name, len(f.data), lg.maxSize, beyond)
+							return false
+						}
+						if beyond == 1 {
+							r.classes["file-beyond-max-by-one-record"] = true
+						}
+					}
+				}
+				return true
+			}
+			if recordsJudged && !judgeRecords() {
+				return false
+			}
+			// (g) after a rotation's clean-up nothing clearly outdated is left (1 day of margin)
+			if rotated && coherent {
+				n := 0
+				for _, f := range cur {
+					if f.kind != c19Backup || f.lg != lg.idx || f.gz != c.Compress {
+						continue
+					}
+					n++
+					if c.Days > 0 && !e.older(f.t, now, c.Days) {
+						edge := f.t.Add(time.Duration(c.Days) * 24 * time.Hour)
+						if c.Rule == "daily" {
+							edge = c19Day(f.t).AddDate(0, 0, c.Days)
+						}
+						if (c.Rule == "daily" && edge.Equal(c19Day(now))) || (c.Rule == "size" && edge.Equal(now.Truncate(time.Second))) {
+							r.classes["kept-exactly-at-retention-boundary"] = true
+						}
+					}
+					if c.Days > 0 && e.older(f.t, now, c.Days+1) {
+						failf("%s: backup %s is more than a day older than the %d retention day(s) at %s and survived the clean-up",
+							what, f.name, c.Days, now.Format(time.RFC3339))
+						return false
+					}
+				}
+				if c.Rule == "size" && c.MaxBackups > 0 && n > c.MaxBackups {
+					failf("%s: %d backups of %s left after the clean-up, maximum is %d", what, n, lg.base, c.MaxBackups)
 					return false
 				}
 			}
-			if c.Rule == "size" && c.MaxBackups > 0 && n > c.MaxBackups {
-				failf("%s: %d backups left after the clean-up, maximum is %d", what, n, c.MaxBackups)
-				return false
+			if rotated {
+				anyRotated = true
+				lg.rotations++
+				r.rotations++
+				if lg.idx > 0 {
+					r.classes["rotated-"+lg.base] = true
+				}
+				lg.periodLo, lg.periodHi = stepStart, now
+				if lg.held != nil {
+					lg.held.Close()
+					lg.held = nil
+				}
+			}
+			if lg.held == nil {
+				lg.held, _ = os.Open(lg.path)
 			}
 		}
-		if rotated {
-			r.rotations++
-			periodLo, periodHi = stepStart, now
-			if held != nil {
-				held.Close()
-				held = nil
-			}
-		}
-		if held == nil {
-			held, _ = os.Open(filename)
-		}
+		_ = anyRotated
 		prev = cur
 		return true
 	}
 
-	if !check("after NewLogger", 0) {
+	if !check("after NewLogger") {
 		return
 	}
 
@@ -978,28 +1078,51 @@ func c19Run(c c19Case, root string, r *c19Result) {
 			if g < 1 {
 				g = 1
 			}
-			per := make([][]int, g)
+			type emit struct{ ep, id, n int }
+			per := make([][]emit, g)
 			for k, n := range st.Lens {
-				per[k%g] = append(per[k%g], n)
+				ep := 0
+				if k < len(st.Ep) {
+					ep = st.Ep[k] % len(c19Eps)
+				}
+				key := ep*4 + k%g
+				count[key]++
+				per[k%g] = append(per[k%g], emit{ep, key*c19GStride + count[key], n})
+				r.classes["entry-"+c19Eps[ep].name] = true
 			}
 			var wg sync.WaitGroup
 			for gi := 0; gi < g; gi++ {
 				wg.Add(1)
-				go func(gi, base int, lens []int, pz int64) {
+				go func(gi int, list []emit, pz int64) {
 					defer wg.Done()
-					for k, n := range lens {
-						id := gi*c19GStride + base + k + 1
-						if c19IsVal(&c, id) {
-							cw.Info(c19Val{P: c19Payload(id, n)})
-						} else {
-							cw.Info(c19Payload(id, n))
+					for _, em := range list {
+						var v any = c19Payload(em.id, em.n)
+						if c19IsVal(&c, em.id) {
+							v = c19Val{P: c19Payload(em.id, em.n)}
+						}
+						switch em.ep {
+						case 0:
+							cw.Info(v)
+						case 1:
+							cw.Debug(v)
+						case 2:
+							cw.Error(v)
+						case 3:
+							cw.Alert(v)
+						case 4:
+							cw.Stack(v)
+						case 5:
+							cw.Severe(v)
+						case 6:
+							cw.Slow(v)
+						case 7:
+							cw.Stat(v)
 						}
 						if pz > 0 {
 							time.Sleep(time.Duration(pz*int64(gi+1)) * time.Microsecond)
 						}
 					}
-				}(gi, count[gi], per[gi], st.Pz)
-				count[gi] += len(per[gi])
+				}(gi, per[gi], st.Pz)
 			}
 			wg.Wait()
 			if g > 1 {
@@ -1011,7 +1134,7 @@ func c19Run(c c19Case, root string, r *c19Result) {
 		}
 		kit.Wait()
 		before := r.rotations
-		if !check(fmt.Sprintf("step %d (%s, records %d..%d)", i, time.Now().Format(time.RFC3339), first, count[0]), first) {
+		if !check(fmt.Sprintf("step %d (%s, %d records, first direct id %d)", i, time.Now().Format(time.RFC3339), len(st.Lens), first)) {
 			return
 		}
 		if r.rotations > before {
@@ -1029,7 +1152,7 @@ func c19Run(c c19Case, root string, r *c19Result) {
 	}
 	kit.Wait()
 	before := r.rotations
-	if !check("after Close", 0) {
+	if !check("after Close") {
 		return
 	}
 	if r.rotations > before {
@@ -1131,6 +1254,16 @@ func c19GenWith(rt *rapid.T, logx bool) c19Case {
 		}
 	}
 
+	// logx: the entry points this history uses (a few, so that single files see enough volume to rotate)
+	var active []int
+	if logx {
+		for _, ep := range rapid.SliceOfNDistinct(rapid.IntRange(0, len(c19Eps)-1), 1, 4, rapid.ID[int]).Draw(rt, "entryPoints") {
+			active = append(active, ep)
+		}
+		for i := range c.Pre {
+			c.Pre[i].F = rapid.IntRange(0, len(c19Files)-1).Draw(rt, "preFile")
+		}
+	}
 	nsteps := rapid.IntRange(1, 24).Draw(rt, "nsteps")
 	if big && nsteps > 10 {
 		nsteps = 10
@@ -1219,6 +1352,9 @@ func c19GenWith(rt *rapid.T, logx bool) c19Case {
 		}
 		if logx {
 			st.Pz = rapid.SampledFrom([]int64{0, 0, 1, 50, 1000, 20000}).Draw(rt, "pause")
+			for range st.Lens {
+				st.Ep = append(st.Ep, rapid.SampledFrom(active).Draw(rt, "ep"))
+			}
 		}
 		c.Steps = append(c.Steps, st)
 	}
